@@ -488,6 +488,104 @@ func c06Check(b *core.B, n *xNode, r *core.Rng) {
 	}
 }
 
+func c06SameNode(b *core.B, mine func() bool) {
+	var vals []interface{}
+	seen := map[string]bool{}
+	for _, l := range xLeaves {
+		k := fmt.Sprintf("%T:%v", l.val, l.val)
+		if l.unknown || l.val == nil || seen[k] {
+			continue
+		}
+		seen[k] = true
+		vals = append(vals, l.val)
+	}
+	for oi, op := range xOps {
+		if !mine() {
+			continue
+		}
+		rr := core.Derive(b.Seed, 0xC06A, uint64(oi))
+		src := "<%= a " + op + " b %>"
+		if !b.Begin(src + "  (one parsed template, " + fmt.Sprint(len(vals)*len(vals)) + " operand pairs)") {
+			continue
+		}
+		t, err := plush.NewTemplate(src)
+		if err != nil {
+			b.Violate("same-node|parse|"+op, err.Error())
+			continue
+		}
+		type pr struct{ a, b interface{} }
+		var prs []pr
+		for _, x := range vals {
+			for _, y := range vals {
+				prs = append(prs, pr{x, y})
+			}
+		}
+		for i := len(prs) - 1; i > 0; i-- {
+			j := rr.Intn(i + 1)
+			prs[i], prs[j] = prs[j], prs[i]
+		}
+		var loopPairs [][]interface{}
+		var loopWant strings.Builder
+		judged := 0
+		for _, p := range prs {
+			n := &xNode{op: op, l: &xNode{leaf: &xLeaf{src: "a", val: p.a}}, r: &xNode{leaf: &xLeaf{src: "b", val: p.b}}}
+			var tr []string
+			want, werr := refEval(n, &tr)
+			ctx := c06Ctx(&c06Env{})
+			ctx.Set("a", p.a)
+			ctx.Set("b", p.b)
+			var o R
+			o.Pan = core.Guard(func() { o.Out, o.Err = t.Exec(ctx) })
+			if o.Pan != nil {
+				b.Violate(o.Pan.Sig(), o.Pan.Value)
+				break
+			}
+			if werr == errUnspecified {
+				continue
+			}
+			judged++
+			what := fmt.Sprintf("a = %#v, b = %#v", p.a, p.b)
+			if werr != nil {
+				if o.Err == nil {
+					b.ViolateIn("same-node|error-expected|"+op, src+"  with "+what, fmt.Sprintf("reference: error (%v); execution %d of the one parsed template rendered %q", werr, judged, o.Out))
+					break
+				}
+				continue
+			}
+			if o.Err != nil {
+				b.ViolateIn("same-node|valid-rejected|"+op, src+"  with "+what, fmt.Sprintf("reference value %v; execution %d of the one parsed template: %v", want, judged, o.Err))
+				break
+			}
+			if exp := xRender(want); o.Out != exp {
+				b.ViolateIn("same-node|wrong-value|"+op, src+"  with "+what, fmt.Sprintf("reference %q; execution %d of the one parsed template rendered %q", exp, judged, o.Out))
+				break
+			}
+			if len(loopPairs) < 200 {
+				loopPairs = append(loopPairs, []interface{}{p.a, p.b})
+				loopWant.WriteString(xRender(want) + "|")
+			}
+		}
+		b.Count("same-node:" + op)
+		b.CountN("same-node-executions", int64(judged))
+		// the same pairs, one pass of a loop each
+		lsrc := "<%= for (p) in pairs { %><%= p[0] " + op + " p[1] %>|<% } %>"
+		if !b.Begin(lsrc) {
+			continue
+		}
+		ctx := c06Ctx(&c06Env{})
+		ctx.Set("pairs", loopPairs)
+		res := render(b, lsrc, ctx)
+		if res.Pan != nil {
+			continue
+		}
+		if res.Err != nil || res.Out != loopWant.String() {
+			b.Violate("same-node|loop|"+op, fmt.Sprintf("%d operand pairs, one per pass\nreference %q\n   engine %s", len(loopPairs), loopWant.String(), res))
+		} else {
+			b.NonTrivialStr(lsrc, op)
+		}
+	}
+}
+
 func leafNode(i int) *xNode { l := xLeaves[i]; return &xNode{leaf: &l} }
 
 func c06Run(b *core.B) {
@@ -516,6 +614,11 @@ func c06Run(b *core.B) {
 			}
 		}
 	}
+	// one parsed node, many operand values: `a OP b` is parsed once and executed
+	// with every pair of values in a shuffled order, and evaluated once per pair
+	// in the body of one loop. What an operator yields depends on the operands
+	// it is given now, not on those it was given before.
+	c06SameNode(b, mine)
 	// depth 2, both shapes, over the 12-leaf core pool: exhaustive in thorough, 1/10 stratified sample in quick
 	stride := int64(10)
 	if b.Tier == core.Thorough {
@@ -604,7 +707,7 @@ func init() {
 	core.Register(&core.Prop{
 		ID:         "C06",
 		Level:      "exploration",
-		Rule:       "expression trees over int/float/string/bool/nil literals and variables, an unknown identifier, with + - * / < <= > >= == != ~= && || !; depth 1 exhaustive over 36 leaves (incl. ! placements), depth 2 both shapes over a 12-leaf pool (exhaustive in thorough, 1/10 in quick), random to depth 5. Each tree is printed with minimal, random-redundant and full parentheses, every leaf wrapped in a recording helper; the engine's value, error status and evaluation trace are compared with a reference evaluator of the documented semantics, and the three printings with each other. Non-trivial = judged (not abstained) tree, counted by the hash of its minimal printing.",
+		Rule:       "expression trees over int/float/string/bool/nil literals and variables, an unknown identifier, with + - * / < <= > >= == != ~= && || !; depth 1 exhaustive over 36 leaves (incl. ! placements), depth 2 both shapes over a 12-leaf pool (exhaustive in thorough, 1/10 in quick), random to depth 5; every operator parsed once as `a OP b` and executed with every ordered pair of 30-odd values in a shuffled order, and once per pair in one loop (a node keeps nothing of its earlier operands). Each tree is printed with minimal, random-redundant and full parentheses, every leaf wrapped in a recording helper; the engine's value, error status and evaluation trace are compared with a reference evaluator of the documented semantics, and the three printings with each other. Non-trivial = judged (not abstained) tree, counted by the hash of its minimal printing.",
 		Assume:     []string{"abstentions (not judged): string compared with a non-string, bool on the left of == != + with a non-bool right, bool + bool, string + nil", "the reference evaluator encodes the property text: int x int, float x float, string x string, bool x bool (== !=), nil (== !=), string + x; everything else is a type mismatch"},
 		Batches:    batchesQT(16, 64),
 		Run:        c06Run,
